@@ -9,6 +9,7 @@ ENGINES = {
     "bounds": dict(src=["harness/bounds.c", "harness/aesfam.c"]),
     "params": dict(src=["harness/params.c", "harness/aesfam.c", "harness/hashalgs.c"]),
     "fips": dict(src=["harness/fips.c", "harness/aesfam.c", "harness/hashalgs.c"], ldflags=["-Wl,--wrap=_aes_self_tests", "-Wl,--wrap=_sha_self_tests"]),
+    "fipssched": dict(src=["harness/fipssched.c"], ldflags=["-Wl,--wrap=_aes_self_tests", "-Wl,--wrap=_sha_self_tests"]),
     "trampeng": dict(src=["harness/trampeng.c", "harness/tramp.c", "harness/tramp.S", "harness/aesfam.c", "harness/hashalgs.c"], ldflags=["-rdynamic"]),
 }
 
@@ -214,6 +215,46 @@ def params_tasks(tier):
     return [dict(engine="params", variant=v, args=["--prop", "C16", "--from", f, "--count", c]) for v in ("plain", "asan") for (f, c) in split(n if v == "plain" else max(4, n // 4), 8)]
 
 
+def c17_tasks(tier):
+    t = []
+    q = tier == "quick"
+    def w(variant, *args, **kw):
+        t.append(dict(engine="fipssched", variant=variant, args=["--prop", "C17"] + list(args), **kw))
+    # controlled, seeded random schedules
+    for (f, c) in split(8000 if q else 1000000, 8 if q else 16):
+        w("fips", "--mode", "sched", "--from", f, "--count", c, "--watchdog", 3000 if q else 20000, timeout=3600 if q else 21000)
+    # controlled, systematic: every schedule with exactly P preemptions at protocol instructions
+    plans = [(2, 1, 1, 2000), (3, 1, 1, 2000), (4, 1, 1, 2000), (2, 2, 8, 24000)] if q else [(2, 1, 1, 2000), (3, 1, 1, 2000), (4, 1, 1, 2000), (2, 2, 4, 24000), (3, 2, 16, 160000), (2, 3, 16, 1600000)]
+    for (thr, pre, parts, space) in plans:
+        for (f, c) in split(space, parts):
+            w("fips", "--mode", "sched", "--threads", thr, "--preempt", pre, "--from", f, "--count", c, "--watchdog", 3000 if q else 20000, timeout=3600 if q else 21000)
+    # free-running stress
+    for k in range(2 if q else 4):
+        w("fips", "--mode", "stress", "--pool", 8 if k % 2 == 0 else 16, "--from", k * 100000000, "--count", 200000 if q else 20000000, "--budget-s", 60 if q else 900, "--watchdog", 3000)
+    w("fips", "--mode", "stress", "--pool", 64, "--from", 0, "--count", 5000 if q else 400000, "--budget-s", 60 if q else 900, "--watchdog", 3000)
+    w("fips-tsan", "--mode", "stress", "--pool", 8, "--from", 0, "--count", 5000 if q else 300000, "--budget-s", 60 if q else 900, "--watchdog", 3000)
+    return t
+
+
+def c17_post(results, libinfos, counts):
+    info, done = {}, []
+    for k, v in counts.items():
+        if k.startswith("systematic_covered_"):
+            cfg = k[len("systematic_covered_"):]
+            space = 0
+            for r in results:
+                for l in r["lines"]:
+                    if l.get("t") == "max" and l.get("name") == "systematic_space_" + cfg:
+                        space = max(space, l["n"])
+            info["systematic_" + cfg] = dict(covered=v, space=space, complete=bool(space and v >= space))
+            if space and v >= space:
+                done.append(cfg)
+    if done:
+        counts["systematic_complete"] = len(done)
+        info["exhaustive_configs"] = sorted(done)
+    return [], info
+
+
 MH_FAMS = ["base", "sse", "avx", "avx2", "avx512"]
 GCM_FAMS = ["sse", "avx_gen2", "avx_gen4", "vaes_avx512"]
 AES_TRUST = TRUST + ["OpenSSL 3.0 EVP as second oracle for inputs longer than 4-8 KiB; ref, OpenSSL and published vectors are cross-checked at start-up"]
@@ -393,5 +434,22 @@ CHECKS = {
         assumptions=TRUST + ["crypto work is observed through resolution of re-armed dispatch slots (every approved algorithm reaches its kernels through a dispatched entry)"],
         tasks=lambda tier: [dict(engine="fips", variant="fips", args=["--prop", "C13", "--from", f, "--count", c]) for (f, c) in split(48 if tier == "quick" else 4000, 8 if tier == "quick" else 16)],
         post=isal_cover_post, exhaustive_key="fips_calls", exhaustive_over="(isal_ entry point) x (self-test state) cells",
+    ),
+    "C17": dict(
+        level="exploration", evaluations=["schedules", "stress_rounds"], must_observe=["schedules", "systematic_schedules", "stress_rounds", "schedule_steps"],
+        level_text=("exploration of thread schedules of the real protocol code: seeded random instruction-granular schedules, complete enumeration of all schedules with a bounded number of "
+                    "preemptions at protocol instructions (a finite quotient, reported as exhaustive per configuration), and free-running stress; 'never waits forever' is decided as bounded progress"),
+        rule=("FIPS_MODE build with the self-test bodies replaced by stubs (verdict pass/fail injected). Controlled mode: 2-4 threads each make their first library call (isal_self_tests, "
+              "isal_aes_keyexp_128 or isal_sha256_ctx_mgr_init) with the trap flag set; after every instruction a SIGTRAP handler hands the CPU to the thread the schedule names "
+              "(pause = yield), so every instruction boundary of asm_check_self_tests_status / asm_set_self_tests_status / isal_self_tests is a preemption point. Random schedules "
+              "switch with probability 2-42% per protocol instruction; systematic schedules enumerate every (preemption position, target thread) tuple. Stress mode: 1..64 pooled threads "
+              "released from a spinning barrier with random start delays and random time spent inside the self-tests, real self-tests in 0.5% of the rounds, status re-armed between rounds; "
+              "also on a ThreadSanitizer build. Per run: the AES and SHA self-tests must each be entered exactly once, every call must return the injected verdict, no call may return "
+              "before the self-tests finished (one atomic logical clock), the verdict must be published, a spinning thread must return within 400 of its own steps after publication, "
+              "and a thread may not spin for more than 200000 steps. distinct_nontrivial = distinct schedules (hash of the (target thread, protocol step) switch sequence) and "
+              "distinct (threads in round, verdict, delay class) stress shapes"),
+        assumptions=TRUST + ["controlled schedules are sequentially consistent interleavings; x86-TSO store buffering is exercised only by the free-running stress",
+                             "the self-test bodies are stubs in all but 0.5% of the rounds (their duration is varied instead)"],
+        tasks=c17_tasks, post=c17_post, exhaustive_key="systematic_complete", exhaustive_over="all schedules with the stated number of preemptions at protocol instructions, for the configurations listed under exhaustive_configs",
     ),
 }
